@@ -576,12 +576,14 @@ def oracle_audit(src, ops, tail):
 
 
 # ---------------------------------------------------------------- C08: the variable write machine
-def oracle_vars(src, ops, tail):
+def oracle_vars(src, ops, tail, check_reads=False):
     """VarSpec: writes outside stabilise are immediate (get/replace return the logical value); writes from
     node functions / bind closures are deferred, compose in program order, are invisible to every reader
     of the running stabilise and become the value at its end; writes from handlers are immediate.
-    Effects are only tracked for top-level maps, top-level bind closures and handlers."""
-    return _oracle_vars_sim(src, ops)
+    Effects are only tracked for top-level maps, top-level bind closures and handlers.
+    check_reads (C07): an observer of a variable returns, between stabilisations, the value that variable had
+    when the last stabilise was called — never a value the variable did not hold."""
+    return _oracle_vars_sim(src, ops, check_reads)
 
 
 def _apply_effect(e, logical, pending, deferred, arg):
@@ -620,16 +622,25 @@ def _apply_effect(e, logical, pending, deferred, arg):
     return None
 
 
-def _oracle_vars_sim(src, ops):
+def _oracle_vars_sim(src, ops, check_reads=False):
     ref = Ref()
     rank_of_handle, effs_of_node, effs_of_bind, kids, var_of_rank, subs = {}, {}, {}, {}, {}, {}
     poisoned = False
+    last_pre = None      # the variables' values when the last completed stabilise was called
     for op in ops:
         line = src[op.idx]
         k = T.parse_op(line)
         name = k[0]
         if op.result.startswith("panic"):
             poisoned = True
+        if check_reads and not poisoned and name == "read" and op.result.startswith("v:") and last_pre is not None:
+            ob = ref.obs[k[1]] if k[1] < len(ref.obs) else None
+            if ob is not None and ob["expr"][0] == "var" and ob["expr"][1] < len(last_pre) \
+                    and ref.cutoffs.get(ob.get("handle")) in (None, "eq", "never"):
+                want = show(last_pre[ob["expr"][1]])
+                if op.result[2:] != want:
+                    return (f"op {op.idx} `{line}`: the observer of variable {ob['expr'][1]} returns {op.result[2:]}; "
+                            f"the variable's value when the last stabilise was called is {want}")
         if not poisoned and name in ("get", "replace", "replacewith"):
             want = "val " + show(ref.store[k[1]])
             if op.result != want:
@@ -712,6 +723,8 @@ def _oracle_vars_sim(src, ops):
             for x, v in pending.items():
                 logical[x] = v
         ref.store = logical
+        if op.result.startswith("ok"):
+            last_pre = pre
     return None
 
 
@@ -738,9 +751,16 @@ def oracle_cutoffs(src, ops, tail):
     always, never = {}, set()        # node rank -> changed_at frozen at; never set
     plain, nondefault = {}, set()    # top-level nodes made by an ordinary combinator; those ever given a cutoff
     computed = {}                    # node rank -> value it had at the end of the stabilise that last recomputed it
+    var_rank, written = [], set()    # variable index -> rank of its watch node; variables written since the last stabilise
     for op in ops:
         line = src[op.idx]
         word = line.split()[0]
+        if word in ("var", "pair", "varmap") and op.result.startswith("node "):
+            var_rank.append(int(op.result.split()[1]))
+        if word in ("set", "setpair", "setmap", "update", "modify", "replace", "replacewith") and not op.result.startswith("panic"):
+            x = int(line.split()[1])
+            if x < len(var_rank):
+                written.add(x)
         if op.result.startswith("node "):
             rank_of_handle[nh] = int(op.result.split()[1])
             if word in ("var", "pair", "const", "map", "mapref", "fold", "zip", "bind"):
@@ -795,6 +815,19 @@ def oracle_cutoffs(src, ops, tail):
                     if dn["rec"] != t:
                         return (f"op {op.idx}: node {c} changed in this stabilise (round {t}) but its needed dependant {d} "
                                 f"was not recomputed (recomputed_at {dn['rec']})")
+            # a write makes the watch node stale: if it is needed it is recomputed, and Never lets even an equal
+            # value through
+            for x in sorted(written):
+                r = var_rank[x]
+                before, after = prev.nodes.get(r), op.nodes.get(r)
+                if before is None or after is None or not after["valid"] or not necessary(before) or not necessary(after):
+                    continue
+                if after["rec"] != t:
+                    return (f"op {op.idx}: variable {x} was written since the last stabilise and its watch node {r} is needed, "
+                            f"but it was not recomputed (recomputed_at {after['rec']}, round {t})")
+                if r in never and after["chg"] != t:
+                    return (f"op {op.idx}: variable {x} (Cutoff::Never) was written since the last stabilise but its watch node {r} "
+                            f"was not stamped as changed (changed_at {after['chg']}, round {t})")
             # the default cutoff: a result equal to the previous value is not a change
             for r, made in plain.items():
                 if r in nondefault:
@@ -839,6 +872,8 @@ def oracle_cutoffs(src, ops, tail):
                 n = op.nodes.get(r)
                 if n is not None and n["valid"] and n["rec"] == t and n["chg"] != t and n["kind"] not in ("MapRef", "MapWithOld"):
                     return f"op {op.idx}: node {r} has Cutoff::Never, was recomputed in round {t} but changed_at is {n['chg']}"
+        if word == "stabilise" and op.result.startswith("ok"):
+            written = set()
         if op.nodes:
             prev = op
     return None
